@@ -13,7 +13,7 @@ ID = 'C17'
 LEAN_MODULE = 'Proofs.C17'
 THEOREMS = ['Fsic.C17.' + n for n in [
     'trace_noninterference', 'trace_off_empty', 'traj_traced', 'cv_traced', 'trace_shape_solved',
-    'trace_shape_failed', 'trace_only_extends']]
+    'trace_shape_failed', 'trace_only_extends', 'trace_noninterference_solve']]
 RULE = ('tracer-extended scripted models over the C02/C06 case lattices (outcome sequences incl. non-finite, raising '
         'and warning passes and hooks, all errors/failures/catch_first_error/min/max_iter, both period spellings, '
         'offsets), trace in {True, list of names, single name, off}, entry points solve_t / solve_period / solve, '
@@ -52,10 +52,13 @@ def trace_of(m, t):
     tr = m['trace'][t]
     if tr.is_empty():
         return '', [], tr
-    rows = [i for i, nm in enumerate(tr.names) if nm != XTRA]
-    cols = tr.values[rows, :].T
-    s = ';'.join(f'{lab}:' + ','.join(str(bits(x)) for x in col) for lab, col in zip(tr.index, cols))
-    return s, list(tr.index), tr
+    try:
+        rows = [i for i, nm in enumerate(tr.names) if nm != XTRA]
+        cols = tr.values[rows, :].T
+        s = ';'.join(f'{lab}:' + ','.join(str(bits(x)) for x in col) for lab, col in zip(tr.index, cols))
+        return s, list(tr.index), tr
+    except Exception as e:  # noqa: BLE001   a trace object that cannot even be read is an observation, not a harness error
+        return f'malformed:{type(e).__name__}', ['<malformed>'], tr
 
 
 def run_traced(case, trace_arg, repeat=1, entry='solve_t', reset=False):
@@ -118,6 +121,11 @@ def oracle(case, trace_arg, names_idx, repeat, entry, rep, reset=False):
                     f'trace={trace_arg!r} entry={entry}: traced {tags_t} {state_str(mt, nE)} vs untraced {tags_u} {state_str(mu, nE)}',
                     {'case': case, 'trace': trace_arg, 'repeat': repeat, 'entry': entry, 'reset': reset})
     s, labels, tr = trace_of(mt, pos)
+    if labels == ['<malformed>']:
+        rep.violate('trace-malformed', f'trace={trace_arg!r} entry={entry}: the trace of period {pos} cannot be read ({s}): '
+                    f'names {list(getattr(tr, "names", []))}, values shape {getattr(getattr(tr, "values", None), "shape", None)}',
+                    {'case': case, 'trace': trace_arg, 'repeat': repeat, 'entry': entry, 'reset': reset})
+        return s, mt, tags_t
     if labels and XTRA in list(tr.names):
         row = list(tr.names).index(XTRA)
         got = [float(x) for x in np.asarray(tr.values[row, :], dtype=float)]
